@@ -87,6 +87,9 @@ def gen_spec(rng, kind=None, maxn=4, via=None):
     }
     if kind == 'bdy':
         spec['via'] = 'from_arrays'
+    if spec['via'] == 'from_arrays' and rng.random() < 0.25:
+        # the caller hands its own (consistent) TFLAG to from_arrays
+        spec['own_tflag'] = True
     if spec['via'] == 'griddesc' and rng.random() < 0.5:
         # with the CF coordinate variables the constructor adds by default
         spec['withcf'] = True
@@ -141,6 +144,13 @@ def build(spec):
             m = gen_core.maskfor(spec['seed'], a.shape, 'random')
             a = np.ma.masked_array(a, mask=m, fill_value=-999.)
         kw[k] = a
+    if spec.get('own_tflag'):
+        tf = np.zeros((spec['nt'], len(spec['names']), 2), 'i')
+        dt = tstep_seconds(spec['tstep'])
+        for i in range(spec['nt']):
+            tf[i, :, 0], tf[i, :, 1] = jd_add(spec['sdate'], spec['stime'],
+                                              i * dt)
+        kw['TFLAG'] = tf
     f = ioapi_base.from_arrays(attrs={'units': 'ppmV'},
                                fileattrs=fileattrs(spec), **kw)
     return f
